@@ -41,8 +41,14 @@ class RemoteState(dict):
             if exc[0] is None:
                 if not RemoteState._active_contexts.unused:
                     #TODO: report warning if state is not empty but was unused?
-                    assert RemoteState._active_contexts.iter == -1, RemoteState._active_contexts.iter
-                    assert not RemoteState._active_contexts.stack, RemoteState._active_contexts.stack
+                    stack = RemoteState._active_contexts.stack
+                    if len(stack) == 1 and stack[0].patches is self and RemoteState._active_contexts.iter == 0:
+                        # patches were given but the top-level object is not one which takes any
+                        # (a list, an object of a class which does not opt in): they are still where __enter__ put them
+                        pass
+                    else:
+                        assert RemoteState._active_contexts.iter == -1, RemoteState._active_contexts.iter
+                        assert not stack, stack
                 del RemoteState._active_contexts.stack
                 del RemoteState._active_contexts.iter
 
@@ -150,6 +156,22 @@ class RemoteState(dict):
             cls.set_patches_iter(it + len(sub_patches))
 
     @staticmethod
+    def is_remote_aware(obj):
+        from ..remote_pickle import SupportRemoteGetState # pylint: disable(relative-beyond-top-level)
+        return issubclass(type(obj), SupportRemoteGetState)
+
+    @staticmethod
+    def recreate_unannounced_obj_and_patch_setstate(newobj, newargs, children_names):
+        ''' Like `recreate_obj_and_patch_setstate`, for an object which the object holding it has not announced
+            (see `remote_reduce`): no patches can be addressed to it, it brings an empty entry of its own instead of
+            consuming the one prepared for somebody else.
+        '''
+        stack = RemoteState._active_contexts.stack
+        stack.append(RemoteState._patches_t(-1, None, {}))
+        RemoteState.set_patches_iter(len(stack) - 1)
+        return RemoteState.recreate_obj_and_patch_setstate(newobj, newargs, children_names)
+
+    @staticmethod
     def default_setstate(obj, state):
         # what `pickle` does with the state of an object which has no __setstate__ (see `load_build` in pickle.py)
         slotstate = None
@@ -169,7 +191,12 @@ class RemoteState(dict):
         def patched_setstate(obj, state):
             if isinstance(state, dict):
                 patched_state = state.copy()
-                patched_state.update(RemoteState.current_patches())
+                for key, value in RemoteState.current_patches().items():
+                    if isinstance(value, dict) and RemoteState.is_remote_aware(state.get(key)):
+                        # patches for a child which is only referred to here (it is restored where it occurs first):
+                        # they cannot be applied from this place, and they must not replace the child either
+                        continue
+                    patched_state[key] = value
             elif RemoteState.current_patches():
                 raise TypeError('State should be dict in order to be patched, not {!r}, while patching remote state of an object with type {!r} with patching context: {}'.format(type(state).__name__, type(ret).__name__, RemoteState._active_contexts.ctxs[-1]))
             else:
